@@ -20,9 +20,10 @@ def run(tier):
     wd = vlib.workdir("C16")
     quick = tier == "quick"
     D = rc.OPTS_DEFAULT
-    variants = [("def", D, [], False), ("arduino", D, [], True)]
+    # (nodouble: a build that stores floating-point values in single precision reads float 64 through another path)
+    variants = [("def", D, [], False), ("arduino", D, [], True), ("nodouble", D, ["ARDUINOJSON_USE_DOUBLE=0"], False)]
     bins = rk.build_readers(variants)
-    by_opts = rk.group_by_opts(bins, variants)
+    by_opts = rk.group_by_opts(bins, variants[:2])
     rk.run_mc(chk, wd, by_opts, [("chars-s", "chars", 4 if quick else 5, [2], "none", D),
                                  ("number-s", "number", 4 if quick else 5, [2], "none", D)])
     rng = random.Random(vlib.seed())
@@ -33,7 +34,7 @@ def run(tier):
     # back-to-back MessagePack objects in every legal encoding
     r, mcases, n = mp.feed_cases(chk, "mp-sessions", wd, mg.gen_sessions(rng, 3000 if quick else 40000))
     chk.add_tlc(r)
-    for label in ("def", "arduino"):
+    for label in ("def", "arduino", "nodouble"):
         ran, evals, problems, _ = rc.replay_cases(chk, bins[label], mcases, f"mp-sessions/{label}")
         for what, case in problems[:3]:
             chk.violation(what, case)
